@@ -40,6 +40,7 @@ def one(name):
             alt[str(s)] = "caught" if "C09: CAUGHT" in p.stdout else "missed"
         meta["seed_sweep_C09"] = " ".join("%s:%s" % (k, v) for k, v in alt.items())
     meta["seed_sweep"] = " ".join("%s:%s" % (k, v) for k, v in res.items())
+    meta["seed_sweep_repo_head"] = subprocess.run(["git", "-C", "/repo", "log", "--format=%h", "-1"], capture_output=True, text=True).stdout.strip()
     json.dump(meta, open(os.path.join(d, "meta.json"), "w"), indent=1)
     return name, meta["seed_sweep"]
 
